@@ -70,7 +70,9 @@ type c14Obs struct {
 	ExecOK     []string `json:"exec_ok"`
 	ExecFail   []string `json:"exec_fail"`
 	Bt         bool     `json:"bt"`
-	PositiveOK bool     `json:"positive_ok"`
+	// BtLater: the same observation once more, after other rule sets were loaded and unloaded
+	BtLater    bool `json:"bt_later"`
+	PositiveOK bool `json:"positive_ok"`
 	// Admit: the answers of the Kubernetes validating admission webhook of the same service (same rule
 	// factory) for rule sets made of this rule
 	Admit c14Admission `json:"admit"`
@@ -671,6 +673,20 @@ func c14RunGroup(cases []c14Case, idxs []int, up *client.Upstream, w *trace.Writ
 			if derr := a.Processor.OnDeleted(pair); derr != nil {
 				return fmt.Errorf("unloading the pair of %s: %w", c.ID, derr)
 			}
+		}
+
+		// the setting in effect is the rule's as long as the rule is loaded, whatever else happens to the repository
+		if obs.Loaded {
+			id := c.ID + "-bt-later"
+
+			o, err := cl.Do(id, client.Request{Method: http.MethodGet, Path: prefix + "/x/v"})
+			if err != nil {
+				return err
+			}
+
+			rec.Take(id)
+
+			obs.BtLater = o.PipelineHeader(a.Mode, "X-Rule") == "fb"
 		}
 
 		// the admission webhook sees the same rule before it would ever be loaded
